@@ -73,17 +73,16 @@
         if kani::any() { PresentationQosPolicyAccessScopeKind::Instance } else { PresentationQosPolicyAccessScopeKind::Topic }
     }
 
-    // mathematical order on DurationKind: INFINITE is the top element, finite values compare as sec*1e9+nanosec
+    // mathematical order on DurationKind: INFINITE is the top element; finite normalized values (nanosec < 10^9, assumed
+    // by any_duration_kind) compare as sec*10^9+nanosec, which for normalized values is the lexicographic order on
+    // (sec, nanosec) - that equivalence is the Verus lemma lemma_lex_is_math_order of C14 (a 128-bit symbolic
+    // multiplication here makes CBMC time out)
     fn dur_gt(a: DurationKind, b: DurationKind) -> bool {
         match (a, b) {
             (DurationKind::Infinite, DurationKind::Infinite) => false,
             (DurationKind::Infinite, DurationKind::Finite(_)) => true,
             (DurationKind::Finite(_), DurationKind::Infinite) => false,
-            (DurationKind::Finite(x), DurationKind::Finite(y)) => {
-                let xn = x.sec as i128 * 1_000_000_000 + x.nanosec as i128;
-                let yn = y.sec as i128 * 1_000_000_000 + y.nanosec as i128;
-                xn > yn
-            }
+            (DurationKind::Finite(x), DurationKind::Finite(y)) => x.sec > y.sec || (x.sec == y.sec && x.nanosec > y.nanosec),
         }
     }
 
@@ -274,14 +273,9 @@
         check_id(l, DATA_REPRESENTATION_QOS_POLICY_ID, o, r);
     }
 
-    fn check_writer_side(row: u8, flags_differ: bool) {
+    fn check_writer_side(row: u8) {
         let o = any_row(row);
         let r = any_row(row);
-        if row == ROW_PRESENTATION {
-            // the `offered more than requested` flag combinations are the recorded finding KF-C15-PRES-FLAGS
-            let more = (o.coherent && !r.coherent) || (o.ordered && !r.ordered);
-            kani::assume(more == flags_differ);
-        }
         let wq = writer_qos(&o, Vec::new());
         let mut pq = PublisherQos::const_default();
         pq.presentation = presentation(&o);
@@ -296,13 +290,9 @@
         core::mem::forget(pq);
     }
 
-    fn check_reader_side(row: u8, flags_differ: bool) {
+    fn check_reader_side(row: u8) {
         let o = any_row(row);
         let r = any_row(row);
-        if row == ROW_PRESENTATION {
-            let more = (o.coherent && !r.coherent) || (o.ordered && !r.ordered);
-            kani::assume(more == flags_differ);
-        }
         let rq = reader_qos(&r, Vec::new());
         let mut sq = SubscriberQos::const_default();
         sq.presentation = presentation(&r);
@@ -327,7 +317,7 @@
     /// @fn get_discovered_reader_incompatible_qos_policy_list, <DurabilityQosPolicy as PartialOrd>::partial_cmp
     #[cfg_attr(kani, kani::proof)]
     fn c15_writer_side_durability() {
-        check_writer_side(ROW_DURABILITY, false);
+        check_writer_side(ROW_DURABILITY);
     }
 
     /// Writer side (get_discovered_reader_incompatible_qos_policy_list), row DEADLINE: incompatible iff offered period > requested period in the mathematical order with INFINITE on top; all normalized durations on both sides. The returned list names a policy exactly once iff the DDS RxO table says it is
@@ -339,7 +329,7 @@
     /// @fn get_discovered_reader_incompatible_qos_policy_list, <DurationKind as PartialOrd>::partial_cmp
     #[cfg_attr(kani, kani::proof)]
     fn c15_writer_side_deadline() {
-        check_writer_side(ROW_DEADLINE, false);
+        check_writer_side(ROW_DEADLINE);
     }
 
     /// Writer side (get_discovered_reader_incompatible_qos_policy_list), row LATENCY_BUDGET: incompatible iff offered duration > requested duration; all normalized durations on both sides. The returned list names a policy exactly once iff the DDS RxO table says it is
@@ -351,7 +341,7 @@
     /// @fn get_discovered_reader_incompatible_qos_policy_list, <DurationKind as PartialOrd>::partial_cmp
     #[cfg_attr(kani, kani::proof)]
     fn c15_writer_side_latency_budget() {
-        check_writer_side(ROW_LATENCY, false);
+        check_writer_side(ROW_LATENCY);
     }
 
     /// Writer side (get_discovered_reader_incompatible_qos_policy_list), row LIVELINESS: incompatible iff offered kind < requested kind (AUTOMATIC < MANUAL_BY_PARTICIPANT < MANUAL_BY_TOPIC) OR offered lease_duration > requested lease_duration - the two compared separately, all 3x3 kinds x all normalized lease durations. The returned list names a policy exactly once iff the DDS RxO table says it is
@@ -363,7 +353,7 @@
     /// @fn get_discovered_reader_incompatible_qos_policy_list, <LivelinessQosPolicy as PartialOrd>::partial_cmp, <DurationKind as PartialOrd>::partial_cmp
     #[cfg_attr(kani, kani::proof)]
     fn c15_writer_side_liveliness() {
-        check_writer_side(ROW_LIVELINESS, false);
+        check_writer_side(ROW_LIVELINESS);
     }
 
     /// Writer side (get_discovered_reader_incompatible_qos_policy_list), row RELIABILITY (offered BEST_EFFORT vs requested RELIABLE), DESTINATION_ORDER (offered BY_RECEPTION vs requested BY_SOURCE), OWNERSHIP (kinds differ): all 2^6 combinations, the three verdicts independent of each other. The returned list names a policy exactly once iff the DDS RxO table says it is
@@ -375,10 +365,10 @@
     /// @fn get_discovered_reader_incompatible_qos_policy_list, <ReliabilityQosPolicyKind as PartialOrd>::partial_cmp, <DestinationOrderQosPolicyKind as PartialOrd>::partial_cmp
     #[cfg_attr(kani, kani::proof)]
     fn c15_writer_side_reliability_destorder_ownership() {
-        check_writer_side(ROW_KINDS, false);
+        check_writer_side(ROW_KINDS);
     }
 
-    /// Writer side (get_discovered_reader_incompatible_qos_policy_list), row PRESENTATION: incompatible iff offered access_scope < requested access_scope, or coherent_access requested and not offered, or ordered_access requested and not offered; all scope/flag combinations in which the writer does not offer a flag the reader did not request (that class is the separate probe). The returned list names a policy exactly once iff the DDS RxO table says it is
+    /// Writer side (get_discovered_reader_incompatible_qos_policy_list), row PRESENTATION: incompatible iff offered access_scope < requested access_scope, or coherent_access requested and not offered, or ordered_access requested and not offered; all scope/flag combinations (2x2 scopes x 2^4 flags), including a writer that offers a flag the reader did not request (compatible). The returned list names a policy exactly once iff the DDS RxO table says it is
     /// incompatible and names nothing else; every other row is held at a concrete compatible value.
     /// @props C15
     /// @kind proof
@@ -387,7 +377,7 @@
     /// @fn get_discovered_reader_incompatible_qos_policy_list, <PresentationQosPolicyAccessScopeKind as PartialOrd>::partial_cmp
     #[cfg_attr(kani, kani::proof)]
     fn c15_writer_side_presentation() {
-        check_writer_side(ROW_PRESENTATION, false);
+        check_writer_side(ROW_PRESENTATION);
     }
 
     /// Reader side (get_discovered_writer_incompatible_qos_policy_list), row DURABILITY: incompatible iff offered kind < requested kind (VOLATILE < TRANSIENT_LOCAL < TRANSIENT < PERSISTENT); all 4x4 kinds. The returned list names a policy exactly once iff the DDS RxO table says it is
@@ -399,7 +389,7 @@
     /// @fn get_discovered_writer_incompatible_qos_policy_list, <DurabilityQosPolicy as PartialOrd>::partial_cmp
     #[cfg_attr(kani, kani::proof)]
     fn c15_reader_side_durability() {
-        check_reader_side(ROW_DURABILITY, false);
+        check_reader_side(ROW_DURABILITY);
     }
 
     /// Reader side (get_discovered_writer_incompatible_qos_policy_list), row DEADLINE: incompatible iff offered period > requested period in the mathematical order with INFINITE on top; all normalized durations on both sides. The returned list names a policy exactly once iff the DDS RxO table says it is
@@ -411,7 +401,7 @@
     /// @fn get_discovered_writer_incompatible_qos_policy_list, <DurationKind as PartialOrd>::partial_cmp
     #[cfg_attr(kani, kani::proof)]
     fn c15_reader_side_deadline() {
-        check_reader_side(ROW_DEADLINE, false);
+        check_reader_side(ROW_DEADLINE);
     }
 
     /// Reader side (get_discovered_writer_incompatible_qos_policy_list), row LATENCY_BUDGET: incompatible iff offered duration > requested duration; all normalized durations on both sides. The returned list names a policy exactly once iff the DDS RxO table says it is
@@ -423,7 +413,7 @@
     /// @fn get_discovered_writer_incompatible_qos_policy_list, <DurationKind as PartialOrd>::partial_cmp
     #[cfg_attr(kani, kani::proof)]
     fn c15_reader_side_latency_budget() {
-        check_reader_side(ROW_LATENCY, false);
+        check_reader_side(ROW_LATENCY);
     }
 
     /// Reader side (get_discovered_writer_incompatible_qos_policy_list), row LIVELINESS: incompatible iff offered kind < requested kind (AUTOMATIC < MANUAL_BY_PARTICIPANT < MANUAL_BY_TOPIC) OR offered lease_duration > requested lease_duration - the two compared separately, all 3x3 kinds x all normalized lease durations. The returned list names a policy exactly once iff the DDS RxO table says it is
@@ -435,7 +425,7 @@
     /// @fn get_discovered_writer_incompatible_qos_policy_list, <LivelinessQosPolicy as PartialOrd>::partial_cmp, <DurationKind as PartialOrd>::partial_cmp
     #[cfg_attr(kani, kani::proof)]
     fn c15_reader_side_liveliness() {
-        check_reader_side(ROW_LIVELINESS, false);
+        check_reader_side(ROW_LIVELINESS);
     }
 
     /// Reader side (get_discovered_writer_incompatible_qos_policy_list), row RELIABILITY (offered BEST_EFFORT vs requested RELIABLE), DESTINATION_ORDER (offered BY_RECEPTION vs requested BY_SOURCE), OWNERSHIP (kinds differ): all 2^6 combinations, the three verdicts independent of each other. The returned list names a policy exactly once iff the DDS RxO table says it is
@@ -447,10 +437,10 @@
     /// @fn get_discovered_writer_incompatible_qos_policy_list, <ReliabilityQosPolicyKind as PartialOrd>::partial_cmp, <DestinationOrderQosPolicyKind as PartialOrd>::partial_cmp
     #[cfg_attr(kani, kani::proof)]
     fn c15_reader_side_reliability_destorder_ownership() {
-        check_reader_side(ROW_KINDS, false);
+        check_reader_side(ROW_KINDS);
     }
 
-    /// Reader side (get_discovered_writer_incompatible_qos_policy_list), row PRESENTATION: incompatible iff offered access_scope < requested access_scope, or coherent_access requested and not offered, or ordered_access requested and not offered; all scope/flag combinations in which the writer does not offer a flag the reader did not request (that class is the separate probe). The returned list names a policy exactly once iff the DDS RxO table says it is
+    /// Reader side (get_discovered_writer_incompatible_qos_policy_list), row PRESENTATION: incompatible iff offered access_scope < requested access_scope, or coherent_access requested and not offered, or ordered_access requested and not offered; all scope/flag combinations (2x2 scopes x 2^4 flags), including a writer that offers a flag the reader did not request (compatible). The returned list names a policy exactly once iff the DDS RxO table says it is
     /// incompatible and names nothing else; every other row is held at a concrete compatible value.
     /// @props C15
     /// @kind proof
@@ -459,30 +449,7 @@
     /// @fn get_discovered_writer_incompatible_qos_policy_list, <PresentationQosPolicyAccessScopeKind as PartialOrd>::partial_cmp
     #[cfg_attr(kani, kani::proof)]
     fn c15_reader_side_presentation() {
-        check_reader_side(ROW_PRESENTATION, false);
-    }
-
-    /// PRESENTATION flags, the class left out above: the writer offers coherent_access (or ordered_access) = TRUE and the
-    /// reader requests FALSE. DDS 1.4 2.2.3.6: compatible ("requested is FALSE, or else both are TRUE").
-    /// @props C15
-    /// @kind proof
-    /// @tier quick
-    /// @known KF-C15-PRES-FLAGS
-    /// @fn get_discovered_reader_incompatible_qos_policy_list
-    #[cfg_attr(kani, kani::proof)]
-    fn c15_kf_writer_side_presentation_offers_more() {
-        check_writer_side(ROW_PRESENTATION, true);
-    }
-
-    /// Same class on the reader side.
-    /// @props C15
-    /// @kind proof
-    /// @tier quick
-    /// @known KF-C15-PRES-FLAGS
-    /// @fn get_discovered_writer_incompatible_qos_policy_list
-    #[cfg_attr(kani, kani::proof)]
-    fn c15_kf_reader_side_presentation_offers_more() {
-        check_reader_side(ROW_PRESENTATION, true);
+        check_reader_side(ROW_PRESENTATION);
     }
 
     fn any_repr_list() -> Vec<u16> {
